@@ -10,6 +10,7 @@ import RedoModel.SqlTxnWire
 import RedoModel.LocksWire
 import RedoModel.OnceWire
 import RedoModel.WaitsWire
+import RedoModel.PathsSemWire
 open RedoModel RedoModel.Wire
 
 def decList (s : String) : Option (List (List Char)) :=
@@ -130,6 +131,7 @@ def respond (line : String) : String :=
   | ["locks-replay", evs] => LocksWire.respond evs
   | ["once-replay", evs] => OnceWire.respond evs
   | ["waits-replay", reach, evs] => WaitsWire.respond reach evs
+  | ["resolve", dirs, files, cwd, path] => PathsSemWire.respond dirs files cwd path
   | _ => "bad-op"
 
 partial def loop (h : IO.FS.Stream) (out : IO.FS.Stream) : IO Unit := do
